@@ -64,6 +64,7 @@ func (*RingBuffer).splitCur
 // calls made to f in order.  f is called on the view oldest first (newest
 // first for ReverseRange) until it returns false or the view is exhausted.
 func (*RingBuffer).Range
+  loops 2
   requires rb != nil && rbInv(rb.buf, cap(rb.buf), rb.cur, rb.full)
   ensures count: cbcalls() <= rbLen(rb.buf, rb.cur, rb.full)
   ensures oldest_first: forall k in 0..cbcalls(): cbarg(k, 0) == rbAt(rb.buf, rb.cur, rb.full, k)
@@ -80,6 +81,7 @@ func (*RingBuffer).Range
     invariant forall k in 0..cbcalls(): cbres(k)
 
 func (*RingBuffer).ReverseRange
+  loops 2
   requires rb != nil && rbInv(rb.buf, cap(rb.buf), rb.cur, rb.full)
   ensures count: cbcalls() <= rbLen(rb.buf, rb.cur, rb.full)
   ensures newest_first: forall k in 0..cbcalls(): cbarg(k, 0) == rbAt(rb.buf, rb.cur, rb.full, rbLen(rb.buf, rb.cur, rb.full) - 1 - k)
@@ -190,6 +192,7 @@ func (*SortedSliceSet).Clone
   ensures origin_unchanged: set != nil ==> set.elems == old(set.elems) && (forall k in 0..len(set.elems): set.elems[k] == old(set.elems[k]))
 
 func (*SortedSliceSet).Range
+  loops 1
   requires set != nil ==> sortedStrict(set.elems)
   ensures nil_no_calls: set == nil ==> cbcalls() == 0
   ensures count: set != nil ==> cbcalls() <= len(set.elems)
@@ -205,6 +208,7 @@ func (*SortedSliceSet).Range
 // MapSet: the key set of the map.
 
 func NewMapSet
+  loops 1
   ensures created: set != nil && fresh(set) && !isnil(set.m)
   ensures all_given: forall k in 0..len(values): haskey(set.m, values[k])
   ensures only_given: forall x: haskey(set.m, x) ==> memberOf(values, x)
@@ -246,6 +250,7 @@ func (*MapSet).Equal
     (ok <==> (len(set.m) == len(other.m) && (forall x: haskey(set.m, x) <==> haskey(other.m, x))))
 
 func (*MapSet).Range
+  loops 1
   ensures nil_no_calls: set == nil ==> cbcalls() == 0
   ensures only_members: set != nil ==> (forall k in 0..cbcalls(): haskey(set.m, cbarg(k, 0)))
   ensures distinct: forall k in 0..cbcalls(): forall j in k + 1..cbcalls(): cbarg(k, 0) != cbarg(j, 0)
@@ -258,6 +263,7 @@ func (*MapSet).Range
     invariant forall k in 0..cbcalls(): cbres(k)
 
 func (*MapSet).Values
+  loops 1
   ensures nil_values: set == nil ==> isnil(values)
   ensures only_members: set != nil ==> (forall k in 0..len(values): haskey(set.m, values[k]))
   ensures all_members: set != nil && !isnil(set.m) ==> (forall x: haskey(set.m, x) ==> memberOf(values, x))
